@@ -93,10 +93,14 @@ def r2_truncate(ctx, repo):
     tags = {pop: ("INPUT",)}
     problems = []
     ret = None
+    VALS.clear()
     for s in fn.body:
         if isinstance(s, ast.Expr) and isinstance(s.value, ast.Constant):
             continue
         if isinstance(s, ast.Assign) and len(s.targets) == 1 and isinstance(s.targets[0], ast.Name):
+            VALS[s.targets[0].id] = s.value
+            if isinstance(s.value, (ast.Lambda,)) or (isinstance(s.value, ast.Call) and (access_path(s.value.func) or "").endswith("cmp_to_key")):
+                continue        # a sort key bound to a name: looked up where it is used
             tags[s.targets[0].id] = tag_of(s.value, tags, size, problems)
         elif isinstance(s, ast.Return):
             ret = tag_of(s.value, tags, size, problems) if s.value is not None else None
@@ -159,8 +163,12 @@ def r2_truncate(ctx, repo):
         ctx.holds("R2", C, where(mod, fn), "result = sorted(set(population), by (front asc, crowding desc))[:size]")
 
 
+VALS = {}      # local name -> bound expression (sort keys held in a local)
+
+
 def sort_tag(src, keywords, problems):
     key = [k.value for k in keywords if k.arg == "key"]
+    key = [VALS.get(k.id, k) if isinstance(k, ast.Name) else k for k in key]
     rev = [k.value for k in keywords if k.arg == "reverse"]
     if rev and not (is_const(rev[0]) and const_value(rev[0]) is False):
         problems.append(("violated", "the population is sorted in reverse order: the worst fronts come first"))
@@ -182,7 +190,7 @@ def sort_tag(src, keywords, problems):
             return ("BAD",)
     if not ok:
         problems.append(("inconclusive", "sort key %s not recognised" % text(k)))
-        return ("BAD",)
+        return ("?",)
     return ("SORTED", src or ("?",))
 
 
